@@ -118,7 +118,7 @@ __CPROVER_ensures(g_ss_has_recid == (recid != NULL) && (recid == NULL || g_ss_re
 
 /* ---- nonce_function_rfc6979_impl: LAST-CALL log of its arguments (its body: unit C01.rfc6979).
  * verif_nonce_calls is the ghost counter named by the loop invariant of the signing retry loop
- * (hooks/C01_sign_inner_loop.diff); the harness stub for user nonce functions increments it too.
+ * (unit table, engine/units/C01_more.py: SIGN_LOOP); the harness stub for user nonce functions increments it too.
  * g_nk is a ghost byte index the code never assigns. */
 #ifdef LOG_NONCE_FN
 unsigned int verif_nonce_calls;
@@ -163,7 +163,7 @@ __CPROVER_ensures(g_nk < 32 ==> g_nf_out_byte == nonce32[g_nk])
 /* ---- RFC 6979 DRBG object: call log.  g_ki: ghost index into the key buffer (never assigned). ---- */
 #ifdef LOG_RFC6979_HMAC
 size_t g_ki;
-unsigned int verif_rfc6979_generate_calls;   /* named by the loop invariant in hooks/C01_rfc6979_loop.diff */
+unsigned int verif_rfc6979_generate_calls;   /* named by the loop invariant of the counter loop (unit table: RFC_LOOP) */
 int g_ri_n, g_rf_n; unsigned int g_rf_gen_before; size_t g_ri_keylen; unsigned char g_ri_byte; const unsigned char *g_ri_key; const secp256k1_hash_ctx *g_ri_hctx; const secp256k1_rfc6979_hmac_sha256 *g_ri_rng;
 unsigned int g_ri_gen_before;
 const unsigned char *g_rg_expect_out; const secp256k1_rfc6979_hmac_sha256 *g_rf_rng;   /* g_rg_expect_out: set by the harness, never assigned by code or contracts */
